@@ -120,8 +120,19 @@ def gen_sched(
                 fam = "hb-promotion"
         if typ.startswith("rush"):
             # RUSH (opt-in family): one initial configuration (the mid-point), which is the threshold candidate or not
-            kw["points_to_evaluate"] = [{}]
-            kw["rung_system_kwargs"] = {"num_threshold_candidates": t.int(0, 1)}
+            # (round 4) ... or two initial configurations and up to two threshold candidates
+            pts = [{}]
+            if t.bool():
+                for k in sorted(cs):
+                    dom = cs[k]
+                    if hasattr(dom, "categories") and len(dom.categories) > 1:
+                        pts.append({k: dom.categories[-1]})
+                        break
+                    if hasattr(dom, "lower") and hasattr(dom, "upper") and dom.upper > dom.lower:
+                        pts.append({k: dom.lower})
+                        break
+            kw["points_to_evaluate"] = pts
+            kw["rung_system_kwargs"] = {"num_threshold_candidates": t.int(0, len(pts))}
             kw["brackets"] = 1
         elif typ != "pasha":
             b = t.weighted([(3, 1), (1, 2), (1, 3)])
